@@ -212,6 +212,25 @@ func c10Run(c *c10Case) string {
 				// missing / non-numeric declaration = unknown: the configured controller
 				c10Check(e, "server", got, 0, c.CC)
 			}
+			// a repeated auth request on the authenticated connection (any declared rate) must not
+			// change what is enforced: the Connect event already told the application the rate
+			// (added after the seeded change C10-2 was missed by single-handshake cases)
+			sets := len(rc.Conn.Peer().CCSets)
+			for _, h2 := range []string{"<missing>", "0", "abc", "65536", "3000000000"} {
+				hh := http.Header{}
+				hh.Set(protocol.RequestHeaderAuth, "good")
+				if h2 != "<missing>" {
+					hh.Set(protocol.CommonHeaderCCRX, h2)
+				}
+				if resp2, err := rc.request("POST", protocol.URLHost, protocol.URLPath, hh); err != nil || resp2.Status != protocol.StatusAuthOK {
+					e.Fail("repeated auth failed: %v %v", resp2, err)
+				}
+				after := c10Inspect(rc.Conn.Peer())
+				if len(rc.Conn.Peer().CCSets) != sets || after.Kind != got.Kind || after.Rate != got.Rate {
+					e.Fail("a repeated auth request (Hysteria-CC-RX %q) changed the enforced congestion control from %+v to %+v while the application was told tx=%d", h2, got, after, reported)
+					break
+				}
+			}
 			rc.close()
 		case "client-header":
 			// scripted server answer: the real client parses a peer-chosen Hysteria-CC-RX string
